@@ -328,6 +328,39 @@ Definition header_safe (c : bytes) : Prop := c <> [] /\ no_ows c.
 Definition loc_safe (l : loc) (c : bytes) : Prop :=
   match l with LHeader _ => header_safe c | _ => True end.
 
+(* single-valued credential attributes of the payload *)
+Inductive cattr := AKey (scheme_name : string) | AToken | AAToken.
+
+Definition attr_of (s : scheme) : option cattr :=
+  match s_kind s with
+  | APIKey => Some (AKey (s_name s))
+  | JWT => Some AToken
+  | OAuth2 => Some AAToken
+  | Basic | NoKind => None
+  end.
+
+Definition loc_of (L : locs) (a : cattr) : loc :=
+  match a with
+  | AKey n => lookup n (l_keys L) (LHeader false)
+  | AToken => l_token L
+  | AAToken => l_atoken L
+  end.
+
+Definition is_header (l : loc) : bool := match l with LHeader _ => true | _ => false end.
+
+Definition in_header (L : locs) (s : scheme) : bool :=
+  match attr_of s with Some a => is_header (loc_of L a) | None => false end.
+
+(* http/codegen/service_data.go: HeaderSchemes = the schemes of all requirements located in a
+   header, first of every scheme name (SchemesData.Append); request_decoder.go.tpl strips the
+   prefix from the payload field of each of them, in that order - also when several of them
+   read the same header *)
+Definition header_schemes (L : locs) (reqs : list requirement) : list scheme :=
+  filter (in_header L) (dedup_schemes [] (flat_map r_schemes reqs)).
+
+Definition strip_fields (L : locs) (reqs : list requirement) : list cattr :=
+  flat_map (fun s => match attr_of s with Some a => [a] | None => [] end) (header_schemes L reqs).
+
 (* the hypothesis of the _partial theorems: the negation of the recorded findings *)
 Definition wire_safe (L : locs) (p : creds) : Prop :=
   (forall b, In b (p_user p) -> N.eqb b 58 = false) /\
